@@ -17,7 +17,8 @@ def _jobs(ctx):
     q = ctx.quick()
     n = 30 if q else 400
     return (sc.corpus_job(ctx) + [(f'comp{k}', ['compete', n]) for k in range(6 if q else 12)]
-            + [(f'ship{k}', ['shipped', n]) for k in range(3 if q else 8)] + [(f'queue{k}', ['queue', n]) for k in range(3 if q else 6)])
+            + [(f'ship{k}', ['shipped', n]) for k in range(3 if q else 8)] + [(f'queue{k}', ['queue', n]) for k in range(3 if q else 6)]
+            + [(f'varfix{k}', ['varfix', 2 * n]) for k in range(3 if q else 6)] + [('fixrec', ['fixrec_sto', n])])
 
 
 def _nontrivial(e):
@@ -30,7 +31,7 @@ def tie(ctx):
 
 
 def search(ctx, hint):
-    return sc.search_with(ctx, hint, [(f's{k}', ['compete', 150]) for k in range(8)])
+    return sc.search_with(ctx, hint, [(f's{k}', ['compete', 150]) for k in range(6)] + [('v', ['varfix', 300]), ('f', ['fixrec_sto', 150])])
 
 
 def replay(ctx, rep):
